@@ -84,7 +84,7 @@ def coeff_status(eng, c):
     return k     # True: non-zero on this path, False: zero, None: undecided
 
 
-def path(eng, acc, task, want='C05'):
+def path(eng, acc, task, focus='C05'):
     if task['kind'] == 'mpo_q':
         return path_mpo_q(eng, acc, task)
     L = task['L']
@@ -115,6 +115,21 @@ def path(eng, acc, task, want='C05'):
     nz = [coeff_status(eng, ch.coeff) for ch in chains]
     if any(z is False for z in nz):
         eng.mark('coeff_zero_chain_dropped')
+    if focus == 'C20':
+        # compactness only: every layer width <= number of chains with non-zero coefficient
+        n_nonzero = sum(1 for z in nz if z is not False)
+        try:
+            widths = W.layer_widths(g)
+        except Exception as e:
+            return
+        acc.inc('c20_width_checks', len(widths))
+        acc.inc('nontrivial_paths')
+        eng.mark('chain_width_bound_checked')
+        if acc.get('#samples') < 2 and len(chains) >= 2:
+            acc.add('samples', sample(eng, task, dict(skeleton=[(s_, list(o)) for s_, o in skel], widths=widths, nonzero_chains=n_nonzero)))
+        if any(w > max(n_nonzero, 1) for w in widths):
+            candidate(eng, acc, task, 'opchains_c20', 'c20:width>chains', f'layer widths {widths} exceed the number of chains with non-zero coefficient ({n_nonzero})', inputs)
+        return
     # was the trailing coefficient absorbed (single surviving pair at the last site with coefficient != 1)?
     last_edges = g.nodes[g.nid_terminal[1]].eids[0]
     if len(last_edges) == 1 and any(isinstance(c, Sym) and not c.is_const() for _, c in g.edges[last_edges[0]].opics):
@@ -135,12 +150,7 @@ def path(eng, acc, task, want='C05'):
     goals = [d for _, d in W.words_diff(got, ref)]
     if prover.prove_escalating(eng, goals, rounds=(1, 2), acc=acc, label='vc_words') != 'proved':
         fails.append('graph does not denote the sum of the padded chains')
-    # --- compactness (C20): every layer width <= number of chains with non-zero coefficient
-    n_nonzero = sum(1 for z in nz if z is not False)
     widths = W.layer_widths(g)
-    if any(w > max(n_nonzero, 1) for w in widths):
-        fails.append(f'C20: layer widths {widths} exceed the number of chains with non-zero coefficient ({n_nonzero})')
-    acc.inc('c20_width_checks', len(widths))
     # --- MPO conversion with a symbolic operator map (zero charges only; charged variant in mpo_q tasks)
     if not task.get('charges') or all(all(S(q).is_zero() for q in ch.qnums) for ch in chains):
         fails += mpo_vcs(eng, acc, g, got, L, task['ids'], [0, 0])
